@@ -40,7 +40,9 @@ func (e *FunctionCallError) Error() string {
 	return e.SourceError.Error()
 }
 
-const errorType = "error"
+// errorInterfaceType is the predeclared error interface. Handlers must declare exactly this type for their
+// error return; comparing by type name would also accept unrelated types that happen to be called "error".
+var errorInterfaceType = reflect.TypeOf((*error)(nil)).Elem()
 
 // NewCallableFunction creates a CallableFunction schema type for the strictly typed function.
 //
@@ -95,9 +97,9 @@ func validateTypedReturnFunc(parsedHandler reflect.Value, errorExpected bool, ou
 	// Validate error return
 	if errorExpected {
 		// Validate the last type as error
-		handlerLastTypeName := parsedHandler.Type().Out(returnCount - 1).Name()
-		if handlerLastTypeName != errorType {
-			return fmt.Errorf("expected last return type from handler to be error, but instead found '%s'", handlerLastTypeName)
+		handlerLastType := parsedHandler.Type().Out(returnCount - 1)
+		if handlerLastType != errorInterfaceType {
+			return fmt.Errorf("expected last return type from handler to be error, but instead found '%s'", handlerLastType)
 		}
 	}
 
@@ -141,8 +143,8 @@ func NewDynamicCallableFunction(
 	switch {
 	case returnCount != 2:
 		return nil, fmt.Errorf("expected dynamic handler to have two returns, one with any type, and one with error type, but got %d return types", returnCount)
-	case parsedHandler.Type().Out(1).Name() != errorType:
-		return nil, fmt.Errorf("expected additional return type to be an error return, but got %s", parsedHandler.Type().Out(1).Name())
+	case parsedHandler.Type().Out(1) != errorInterfaceType:
+		return nil, fmt.Errorf("expected additional return type to be an error return, but got %s", parsedHandler.Type().Out(1))
 	case parsedHandler.Type().Out(0).Kind() != reflect.Interface:
 		return nil, fmt.Errorf("expected 'any' return type for handler, but got %s", parsedHandler.Type().Out(0))
 	}
